@@ -40,6 +40,10 @@ CHECKS = {
             "runtime monitor: one ASan/UBSan process per content-file mutant (bits, truncations, bytes, field-aware varints/tags) with unchanged-state oracle; kill enumeration over every content-file system call through the LD_PRELOAD shim with old-or-new-version oracle and an ordering spec on the recorded event log",
             "Fault enumeration: every single bit and every truncation length of content files of 3 (quick) / 12 (thorough) shapes covering format 2 and 3 and all record kinds, plus field-aware damage aimed at length/count/position fields; each mutant is one process under ASan+UBSan and must be rejected with nothing modified. Every content-file system call of test-rewrite/touch/sync is a kill point (before/after/mid-write) for 1..7 copies; each copy must remain a complete old or new version. The save protocol (O_EXCL tmp, fsync, re-read to EOF, rename) is checked on every recorded event log.",
             "Kill = process death, not power loss (fsync is checked only as an ordering event). Multi-byte random damage passing the CRC by chance (2^-32) would be reported as accepted. Mutation positions for byte-value mutants are strided in quick."),
+    "C13": ("exploration",
+            "runtime monitoring of schedules: differential runs across io-cache depths and seeded schedule perturbation (source hooks), ThreadSanitizer/ASan on io-ring and hostile scan workloads, offline checker of the io.c hook event trace (slot ownership, exactly-once, order), watchdog + SIGINT for termination",
+            "From one restored image sync/scrub are run single-threaded and with 3..128 ring slots under seeded yields/sleeps injected between critical sections; parity bytes, decoded state and error sets must equal the single-thread reference. Every run's hook trace (one atomic sequence counter) is checked for overlapping slot ownership, positions processed exactly once and in order, and worker silence after join. TSan (real SIMD and portable-C builds) and ASan watch the same workloads plus a scan workload built to hit the copy-detection window. Evidence reports events, hand-overs and distinct interleavings seen.",
+            "Interleavings are sampled, not enumerated: the exhaustive exploration of a ring-protocol model named in the property's observe_at is model checking and is not done (DESIGN.md section 6). Termination means 'ended within the watchdog on every run'. State comparison ignores free-space counters and inode numbers."),
 }
 
 ALL = ["C%02d" % i for i in range(1, 21)]
